@@ -67,9 +67,16 @@ theorem visitNode_noskip (c : Cfg) (n : Node) (body : St → St) (st st1 : St) (
     visitNode c n body st = leave c n (body st1) := by
   unfold visitNode; rw [h]; rfl
 
-theorem visitNode_skip (c : Cfg) (n : Node) (body : St → St) (st st1 : St) (h : enter c n st = (st1, true)) :
-    visitNode c n body st = st1 := by
-  unfold visitNode; rw [h]; rfl
+/-- single-rule chain, the rule raises `SkipNode`: the rule state is the entered one, `TypeInfoVisitor` is left
+    (semantics of fix 391ad62) -/
+theorem visitNode_skip {s : SchemaD} {fx : Fixes} (r : Rule) (n : Node) (body : St → St) (st st1 : St)
+    (h : enter ⟨s, fx, [r]⟩ n st = (st1, true)) :
+    visitNode ⟨s, fx, [r]⟩ n body st = { ti := tiLeave n st1.ti, rs := st1.rs } := by
+  have e : enter ⟨s, fx, [r]⟩ n st = ({ ti := tiEnter s n st.ti, rs := (enterRule s fx r n (tiEnter s n st.ti) st.rs).1 },
+      (enterRule s fx r n (tiEnter s n st.ti) st.rs).2) := by simp only [enter, enterRules_one]
+  rw [e] at h
+  obtain ⟨h1, h2⟩ := Prod.mk.inj h
+  rw [visitNode_skip_single s fx r n body st h2, ← h1]
 
 theorem uf_visitDef (s : SchemaD) (fx : Fixes) (x : Def) (st : St) :
     E (visitDef ⟨s, fx, [.uniqueFragmentNames]⟩ x st) = E st + dupCount st.rs.fragNames (defFragName x) ∧
